@@ -54,6 +54,10 @@ def gen(tier, seed):
                     args, timeout=600, viol="coarse-graining changes the physical amounts when state / network / space use other units than the system")
         add("ucg_%s" % tag, "c16-uncoarsegrain", "uncoarsegrain_ok(%r, %s, %r)" % (shape, mp, envs), ["pre: " + pre],
             "un-coarse-graining spreads each group value evenly (totals preserved, members equal, dropped cells 0) (%s)" % desc, args, timeout=600)
+    L.extend(["def h_simulate_sto(k: int, opt: int, mode: int) -> bool:", '    """', "    pre: 0 <= k <= 2 and 0 <= opt <= 1 and 0 <= mode <= 1", "    post: _", '    """', "    return simulate_stochastic_map(k, opt, mode)", ""])
+    conds.append({"fn": "h_simulate_sto", "what": "stochastic engines through a coarse-graining map on the real build (identity and pairing maps, 3 grid shapes, tau-leap and Gillespie, 3 seeds): an immobile species keeps its per-cell amounts "
+                  "(per-group totals) in every sample, mobile species keep their grand totals, amounts stay non-negative integers", "sig": "c16-simulate-cgmap-stochastic", "structure": "coarse-graining",
+                  "viol": "a stochastic run through a coarse-graining map moves an immobile species (a diffusion channel carries another species' coefficient) or loses molecules"})
     L.extend(["def h_chem_dense(k: int, m: int, pat: int) -> bool:", '    """', "    pre: 0 <= k <= 2 and 0 <= m <= 2 and 0 <= pat <= 3", "    post: _", '    """', "    return chem_flags_dense(k, m, pat)", ""])
     conds.append({"fn": "h_chem_dense", "what": "dense chemostat maps (several flagged members of one species in one group, three species): every coarse flag is exactly 1 if any member is flagged and exactly 0 otherwise, in every species' block; "
                   "the exported right-hand side of a one-node coarse system holds flagged entries at rate 0", "sig": "c16-chemostat-flags", "structure": "coarse-graining",
